@@ -6,6 +6,10 @@
 #include <jsoncons_ext/ubjson/ubjson.hpp>
 #include <jsoncons_ext/bson/bson.hpp>
 #include <jsoncons_ext/csv/csv.hpp>
+#include <jsoncons_ext/toon/toon.hpp>
+#include <jsoncons_ext/toon/toon_reader.hpp>
+#include <jsoncons_ext/toon/decode_toon.hpp>
+#include <jsoncons_ext/toon/encode_toon.hpp>
 #include <sstream>
 
 using namespace jsoncons;
@@ -94,7 +98,54 @@ struct CsvEncodeScn : Scenario {
     std::string check(bool) override { if (text(j) != before) return "const value changed"; return ""; }
 };
 
+// Hand-written binary documents (typed arrays, bignums, decimal fractions, stringrefs, ext / timestamp, typed UBJSON containers,
+// every BSON element type, also malformed ones): decode into a value, and walk with a cursor converting every scalar event.
+struct CborCur { using type = cbor::cbor_bytes_cursor; };
+struct MsgpackCur { using type = msgpack::msgpack_bytes_cursor; };
+struct UbjsonCur { using type = ubjson::ubjson_bytes_cursor; };
+struct BsonCur { using type = bson::bson_bytes_cursor; };
+template <class F, class C, bool Cursor> struct SeedDecodeScn : Scenario {
+    std::vector<uint8_t> bytes;
+    void setup(const MVal& p) override { std::string b = sim::from_hex(p.gets("bytes_hex")); bytes.assign(b.begin(), b.end()); }
+    std::string run() override {
+        if (!Cursor) { json j = F::template dec<json>(bytes); return text(j); }
+        std::string log;
+        typename C::type cur(bytes);
+        for (int guard = 0; !cur.done() && guard < 100000; cur.next(), ++guard) {
+            const auto& ev = cur.current();
+            log += std::to_string((int)ev.event_type()); log += ":";
+            if (!is_begin_container(ev.event_type()) && !is_end_container(ev.event_type())) { std::error_code ec; std::string v = ev.template get<std::string>(ec); if (!ec) log += v; }
+            log += ";";
+        }
+        return log;
+    }
+    std::string check(bool) override { return ""; }
+};
+
+struct ToonDecodeScn : Scenario {
+    std::string data;
+    void setup(const MVal& p) override { json j = json::parse(sim::plan_text(p, "doc")); try { toon::encode_toon(j, data); } catch (const std::exception&) { data = "a: 1\n"; } }
+    std::string run() override { json j = toon::decode_toon<json>(data); return text(j); }
+    std::string check(bool) override { return ""; }
+};
+struct ToonEncodeScn : Scenario {
+    json j; std::string before;
+    void setup(const MVal& p) override { j = json::parse(sim::plan_text(p, "doc")); before = text(j); }
+    std::string run() override { std::string s; toon::encode_toon(j, s); return s; }
+    std::string check(bool) override { if (text(j) != before) return "const value changed"; return ""; }
+};
+
 void register_fmt(std::vector<Reg>& r) {
+    r.push_back({"decode_seed_cbor", maker<SeedDecodeScn<Cbor, CborCur, false>>, "seed_cbor"});
+    r.push_back({"cursor_seed_cbor", maker<SeedDecodeScn<Cbor, CborCur, true>>, "seed_cbor"});
+    r.push_back({"decode_seed_msgpack", maker<SeedDecodeScn<Msgpack, MsgpackCur, false>>, "seed_msgpack"});
+    r.push_back({"cursor_seed_msgpack", maker<SeedDecodeScn<Msgpack, MsgpackCur, true>>, "seed_msgpack"});
+    r.push_back({"decode_seed_ubjson", maker<SeedDecodeScn<Ubjson, UbjsonCur, false>>, "seed_ubjson"});
+    r.push_back({"cursor_seed_ubjson", maker<SeedDecodeScn<Ubjson, UbjsonCur, true>>, "seed_ubjson"});
+    r.push_back({"decode_seed_bson", maker<SeedDecodeScn<Bson, BsonCur, false>>, "seed_bson"});
+    r.push_back({"cursor_seed_bson", maker<SeedDecodeScn<Bson, BsonCur, true>>, "seed_bson"});
+    r.push_back({"decode_toon", maker<ToonDecodeScn>, "doc"});
+    r.push_back({"encode_toon", maker<ToonEncodeScn>, "doc"});
     r.push_back({"decode_cbor", maker<DecodeScn<Cbor, false, false>>, "doc"});
     r.push_back({"decode_cbor_stream", maker<DecodeScn<Cbor, false, true>>, "doc"});
     r.push_back({"decode_msgpack", maker<DecodeScn<Msgpack, false, false>>, "doc"});
